@@ -1356,8 +1356,23 @@ func runStoreC06(o *opts) error {
 	}); err != nil {
 		return err
 	}
+	// ---- fields under a path prefix (store_c06_pfx.go; generated after everything else: the streams above are unchanged)
+	npf := o.getInt("pfx", -1)
+	if npf < 0 {
+		npf = n * 3 / 10
+		if o.thorough() {
+			npf = n / 10
+		}
+	}
+	if err := c06PfxStream(r, npf, tmp, stats, func(c, obs, nv string) {
+		cases.line("%s", c)
+		impl.line("%s", obs)
+		nev.line("%s", nv)
+	}); err != nil {
+		return err
+	}
 	writeJSON(o.out, "stats.json", stats)
-	fmt.Fprintf(os.Stderr, "storec06: %d same-name histories\n", nsn)
+	fmt.Fprintf(os.Stderr, "storec06: %d same-name histories, %d path-prefix histories\n", nsn, npf)
 	fmt.Fprintf(os.Stderr, "storec06: %d histories, %d rc histories, %d burst histories, %d child-level histories, %d rc child-level histories, %d link-sequence histories, %d rc sequence histories\n", n, nrc, nb, nch, nrcc, nls, nrs)
 	return nil
 }
